@@ -1,8 +1,8 @@
 #!/usr/bin/env python3
 """Maintenance helper, run by hand on an UNCHANGED tree only (never by a check): rewrites the
-digest-valued state facts (funcs:, reads:, pwrites:) expected by MV/Props/CxxFacts.lean and the
-readable sidecar MV/Props/funcs_expected.txt from a freshly generated MV/Generated/Facts.lean.
-usage: update_state_facts.py <Generated/Facts.lean>"""
+digest-valued shape fact (shape:Cxx) expected by MV/Props/CxxFacts.lean and the readable sidecar
+MV/Props/shape_expected.txt from a freshly generated MV/Generated/Facts.lean.
+usage: update_state_facts.py <Generated/Facts.lean> <dict dir>"""
 import re, sys, os, glob
 gen = open(sys.argv[1]).read()
 pair = re.compile(r'\("((?:[^"\\]|\\.)*)", "((?:[^"\\]|\\.)*)"\)')
@@ -15,14 +15,15 @@ for f in sorted(glob.glob(os.path.join(root, "C??Facts.lean"))):
         continue
     items = pair.findall(m.group(2))
     keys = [k for k, _ in items]
-    pkgs = [k.split(":", 1)[1] for k in keys if k.startswith("globals:")]
-    out = [(k, v) for k, v in items if not k.startswith(("funcs:", "reads:", "pwrites:"))]
-    for p in pkgs:
-        for kind in ("funcs:", "reads:", "pwrites:"):
-            out.append((kind + p, have[kind + p]))
+    prop = os.path.basename(f)[:3]
+    out = [(k, v) for k, v in items if not k.startswith(("funcs:", "reads:", "pwrites:", "shape:"))]
+    out.append(("shape:" + prop, have["shape:" + prop]))
     body = ", ".join('("%s", "%s")' % kv for kv in out)
     s = s[:m.start()] + m.group(1) + body + m.group(3) + s[m.end():]
     open(f, "w").write(s)
-with open(os.path.join(root, "funcs_expected.txt"), "w") as o:
-    for k, v in re.findall(r"^-- ((?:funcs|reads|pwrites):\S+) = (.*)$", gen, flags=re.M):
+with open(os.path.join(root, "shape_expected.txt"), "w") as o:
+    for k, v in re.findall(r"^-- (shape:\S+) = (.*)$", gen, flags=re.M):
         o.write(f"{k} = {v}\n")
+with open(os.path.join(root, "dict_expected.txt"), "w") as o:
+    for f in sorted(glob.glob(os.path.join(sys.argv[2], "C??.txt"))):
+        o.write(os.path.basename(f)[:3] + " = " + " ".join(l.strip() for l in open(f) if l.strip()) + "\n")
